@@ -81,55 +81,57 @@ def hexVal (c : Char) : Nat :=
 def hexNum (cs : List Char) : Nat := cs.foldl (fun a c => a * 16 + hexVal c) 0
 def octNum (cs : List Char) : Nat := cs.foldl (fun a c => a * 8 + (c.toNat - '0'.toNat)) 0
 
-/-- Python's evaluation of the inside of a (triple-double-quoted) string literal.
+/-- Python's evaluation of the inside of a double-quoted string literal (`triple`: `\"\"\"…\"\"\"`, else `\"…\"`).
 `none` = the literal is rejected (SyntaxError / ValueError), which the parser turns into `Except`. -/
-def pyEval : (fuel : Nat) → List Char → Option (List Char)
+def pyEvalG (triple : Bool) : (fuel : Nat) → List Char → Option (List Char)
   | 0, _ => some []
   | _, [] => some []
   | fuel + 1, c :: cs =>
     if c == '\x00' then none                                     -- "source code string cannot contain null bytes"
+    else if !triple && (c == '\n' || c == '\r') then none        -- a one-line "…" literal ends at the line end
+    else if !triple && c == dq then none                         -- … and at an unescaped quote
     else if c == '\r' then                                       -- universal newlines of the tokenizer
       match cs with
-      | '\n' :: cs' => (pyEval fuel cs').map ('\n' :: ·)
-      | _ => (pyEval fuel cs).map ('\n' :: ·)
+      | '\n' :: cs' => (pyEvalG triple fuel cs').map ('\n' :: ·)
+      | _ => (pyEvalG triple fuel cs).map ('\n' :: ·)
     else if c == bs then
       match cs with
       | [] => none                                               -- the closing quotes get escaped: unterminated
       | e :: r =>
-        if e == bs then (pyEval fuel r).map (bs :: ·)
-        else if e == q then (pyEval fuel r).map (q :: ·)
-        else if e == dq then (pyEval fuel r).map (dq :: ·)
-        else if e == 'n' then (pyEval fuel r).map ('\n' :: ·)
-        else if e == 't' then (pyEval fuel r).map ('\t' :: ·)
-        else if e == 'r' then (pyEval fuel r).map ('\r' :: ·)
-        else if e == 'a' then (pyEval fuel r).map ('\x07' :: ·)
-        else if e == 'b' then (pyEval fuel r).map ('\x08' :: ·)
-        else if e == 'f' then (pyEval fuel r).map ('\x0c' :: ·)
-        else if e == 'v' then (pyEval fuel r).map ('\x0b' :: ·)
-        else if e == '\n' then pyEval fuel r                     -- line continuation
+        if e == bs then (pyEvalG triple fuel r).map (bs :: ·)
+        else if e == q then (pyEvalG triple fuel r).map (q :: ·)
+        else if e == dq then (pyEvalG triple fuel r).map (dq :: ·)
+        else if e == 'n' then (pyEvalG triple fuel r).map ('\n' :: ·)
+        else if e == 't' then (pyEvalG triple fuel r).map ('\t' :: ·)
+        else if e == 'r' then (pyEvalG triple fuel r).map ('\r' :: ·)
+        else if e == 'a' then (pyEvalG triple fuel r).map ('\x07' :: ·)
+        else if e == 'b' then (pyEvalG triple fuel r).map ('\x08' :: ·)
+        else if e == 'f' then (pyEvalG triple fuel r).map ('\x0c' :: ·)
+        else if e == 'v' then (pyEvalG triple fuel r).map ('\x0b' :: ·)
+        else if e == '\n' then pyEvalG triple fuel r                     -- line continuation
         else if e == '\r' then
           match r with
-          | '\n' :: r' => pyEval fuel r'
-          | _ => pyEval fuel r
+          | '\n' :: r' => pyEvalG triple fuel r'
+          | _ => pyEvalG triple fuel r
         else if isOct e then
           let ds := (e :: r).takeWhile isOct |>.take 3
-          (pyEval fuel ((e :: r).drop ds.length)).map (Char.ofNat (octNum ds) :: ·)
+          (pyEvalG triple fuel ((e :: r).drop ds.length)).map (Char.ofNat (octNum ds) :: ·)
         else if e == 'x' then
           match r with
           | h1 :: h2 :: r' =>
-            if isHex h1 && isHex h2 then (pyEval fuel r').map (Char.ofNat (hexNum [h1, h2]) :: ·) else none
+            if isHex h1 && isHex h2 then (pyEvalG triple fuel r').map (Char.ofNat (hexNum [h1, h2]) :: ·) else none
           | _ => none
         else if e == 'u' then
           let ds := r.take 4
-          if ds.length == 4 && ds.all isHex then (pyEval fuel (r.drop 4)).map (Char.ofNat (hexNum ds) :: ·) else none
+          if ds.length == 4 && ds.all isHex then (pyEvalG triple fuel (r.drop 4)).map (Char.ofNat (hexNum ds) :: ·) else none
         else if e == 'U' then
           let ds := r.take 8
           if ds.length == 8 && ds.all isHex && hexNum ds < 0x110000 then
-            (pyEval fuel (r.drop 8)).map (Char.ofNat (hexNum ds) :: ·)
+            (pyEvalG triple fuel (r.drop 8)).map (Char.ofNat (hexNum ds) :: ·)
           else none
         else if e == 'N' then none                               -- \N{…}: named characters are not modelled (rejected unless well-formed)
         else if e == '\x00' then none
-        else (pyEval fuel (e :: r)).map (bs :: ·)                 -- unknown escape: the backslash stays
+        else (pyEvalG triple fuel (e :: r)).map (bs :: ·)                 -- unknown escape: the backslash stays
     else if c == dq then
       -- an UNESCAPED double quote (its escaping backslash was itself escaped): inside the
       -- triple-quoted source up to two are content, three close the literal early; at the very end
@@ -139,8 +141,14 @@ def pyEval : (fuel : Nat) → List Char → Option (List Char)
       if rest.isEmpty then
         if k == 2 then some [] else none
       else if k ≥ 3 then none
-      else (pyEval fuel rest).map (List.replicate k dq ++ ·)
-    else (pyEval fuel cs).map (c :: ·)
+      else (pyEvalG triple fuel rest).map (List.replicate k dq ++ ·)
+    else (pyEvalG triple fuel cs).map (c :: ·)
+
+/-- evaluation of a triple-double-quoted literal (`single_literal`, `double_literal`) -/
+def pyEval : Nat → List Char → Option (List Char) := pyEvalG true
+
+/-- evaluation of a one-line double-quoted literal (`double_column`, `backtick_column`, `square_column`) -/
+def pyEval1 : Nat → List Char → Option (List Char) := pyEvalG false
 
 /-- `single_literal` applied to a token `'…'` (no encoding prefix) -/
 def decodeImpl (tok : List Char) : Option (List Char) :=
@@ -164,6 +172,54 @@ def decodeImplDQ (tok : List Char) : Option (List Char) :=
   | some (b, _) =>
     let src := replacePairs dq bs dq b
     pyEval (src.length + 1) src
+  | none => none
+
+/-! ### quoted identifiers -/
+
+def bt : Char := '`'
+def rb : Char := ']'
+
+def quoteWith (open_ close : Char) (s : List Char) : List Char := open_ :: (doubleQuotes close s ++ [close])
+
+def matchQuoted (open_ close : Char) : List Char → Option (List Char × List Char)
+  | c :: cs => if c == open_ then matchBody close cs else none
+  | [] => none
+
+/-- `mo_dots.literal_field`: a dot at either end becomes `\b`, an inner dot is doubled -/
+def lfRest : List Char → List Char          -- every character but the first
+  | [] => []
+  | [c] => if c == '.' then ['\x08'] else [c]
+  | c :: c2 :: cs =>
+    -- Python's `$` also matches before one final newline: a dot there counts as a trailing dot
+    if cs.isEmpty && c2 == '\n' then (if c == '.' then ['\x08'] else [c]) ++ ['\n']
+    else (if c == '.' then ['.', '.'] else [c]) ++ lfRest (c2 :: cs)
+
+def literalField : List Char → List Char
+  | [] => []
+  | c :: cs => (if c == '.' then ['\x08'] else [c]) ++ lfRest cs
+
+/-- `double_column`: `'"' + val[1:-1].replace('""', '\\"') + '"'`, evaluated, dots escaped -/
+def decodeAnsiIdent (tok : List Char) : Option (List Char) :=
+  match matchQuoted dq dq tok with
+  | some (b, _) =>
+    let src := replacePairs dq bs dq b
+    (pyEval1 (src.length + 1) src).map literalField
+  | none => none
+
+/-- `backtick_column`: ``.replace("``", "`").replace('"', '\\"')`` -/
+def decodeBacktickIdent (tok : List Char) : Option (List Char) :=
+  match matchQuoted bt bt tok with
+  | some (b, _) =>
+    let src := escapeDq (undouble bt b)
+    (pyEval1 (src.length + 1) src).map literalField
+  | none => none
+
+/-- `square_column`: `.replace("]]", "]").replace('"', '\\"')` -/
+def decodeSquareIdent (tok : List Char) : Option (List Char) :=
+  match matchQuoted '[' rb tok with
+  | some (b, _) =>
+    let src := escapeDq (undouble rb b)
+    (pyEval1 (src.length + 1) src).map literalField
   | none => none
 
 /-! ### decimal integers -/
@@ -199,5 +255,36 @@ def parseIntText (cs : List Char) : Nat :=
       | '+' :: t => t
       | t => t
     parseNat mant * 10 ^ parseNat e'
+
+end MoSql.Lex
+
+namespace MoSql.Lex
+
+/-! ### bare names -/
+
+def isAsciiAlphaU (c : Char) : Bool :=
+  (97 ≤ c.toNat && c.toNat ≤ 122) || (65 ≤ c.toNat && c.toNat ≤ 90) || c.toNat == 95
+def isAsciiWord (c : Char) : Bool := isAsciiAlphaU c || (48 ≤ c.toNat && c.toNat ≤ 57)
+
+/-- `formatting.VALID` (`^[a-zA-Z_]\w*\Z`, ASCII) -/
+def validName : List Char → Bool
+  | [] => false
+  | c :: cs => isAsciiAlphaU c && cs.all isAsciiWord
+
+/-- `_should_quote` -/
+def shouldQuote (isKeyword : List Char → Bool) (s : List Char) : Bool :=
+  s != ['*'] && (!validName s || isKeyword s)
+
+/-- `escape` for one path segment -/
+def escSegment (quote : Char) (isKeyword : List Char → Bool) (s : List Char) : List Char :=
+  if shouldQuote isKeyword s then quoteWith quote quote s else s
+
+def inRanges (rs : List (Nat × Nat)) (c : Char) : Bool := rs.any fun r => r.1 ≤ c.toNat && c.toNat ≤ r.2
+
+/-- `Word(first, rest)`: a character of `first`, then the maximal run of characters of `rest` -/
+def matchWord (first rest : List (Nat × Nat)) : List Char → Option (List Char × List Char)
+  | [] => none
+  | c :: cs =>
+    if inRanges first c then some (c :: cs.takeWhile (inRanges rest), cs.dropWhile (inRanges rest)) else none
 
 end MoSql.Lex
